@@ -1,5 +1,5 @@
-\* one REPLAY line per (configuration, fault plan): single-chunk payloads of 1..9 units around a 4-unit buffer
-CONSTANTS BufCap = 4 Deviant = "none" MaxChunk = 9 MaxChunks = 1 PlanMode = "plans" EmitReplay = TRUE
+\* one REPLAY line per (configuration, fault plan): single-chunk payloads of 1..6 units (caller-supplied writers: 1..4) around a 4-unit buffer
+CONSTANTS BufCap = 4 Deviant = "none" MaxChunk = 6 MaxChunks = 1 PlanMode = "plans" EmitReplay = TRUE
 SPECIFICATION MCSpec
 INVARIANTS Emit NeverTorn AllOrNothing ErrorNotPanic
 CHECK_DEADLOCK TRUE
